@@ -70,6 +70,12 @@ def issueOfPostErr (env : Env) (path dtype : String) : PostErr → Issue
   | .plain => { code := "", path := path, dtype := dtype, params := [], message := env.fmt "" dtype [] }
   | .issue i => if i.message != "" then i else { i with message := env.fmt i.code i.dtype i.params }
 
+/-- `ctx.Issue().SetMessage(err.Error())` of `PreprocessSchema.validate` (an empty message is
+    formatted like any other issue without one) -/
+def preErrIssue (env : Env) (path dtype msg : String) : Issue :=
+  { code := "", path := path, dtype := dtype, params := [],
+    message := if msg != "" then msg else env.fmt "" dtype [] }
+
 namespace Engine
 
 /-- `SchemaCtx.AddIssue` -/
@@ -326,6 +332,21 @@ def proc (env : Env) (f : Facts) (m : Mode) : Schema → Option String → Child
       match c.accept v with
       | none => let a := addIssue fl st (coerceIssue env ps "custom"); (a.1, d, a.2)
       | some x => run x
+  | .pre ps inner, tag, fl, path, v, d, st =>
+    let p := render path
+    match m with
+    | .parse =>
+      if ps.accept v then
+        let st1 : St := { st with log := st.log ++ [⟨.pre, ps.id, p, .custom v⟩] }
+        match ps.run v with
+        | (_, some e) => let a := addIssue fl st1 (issueOfPostErr env p inner.dtype e); (a.1, d, a.2)
+        | (v', none) => proc env f m inner tag fl path v' d st1
+      else let a := addIssue fl st (coerceIssue env p inner.dtype); (a.1, d, a.2)
+    | .validate =>
+      let st1 : St := { st with log := st.log ++ [⟨.pre, ps.id, p, d⟩] }
+      match ps.runD d with
+      | (_, some msg) => let a := addIssue fl st1 (preErrIssue env p inner.dtype msg); (a.1, d, a.2)
+      | (d', none) => proc env f m inner tag fl path v d' st1
 /-- process the field with schema key `key` (looked up in `fs`) on the shared context `sub` -/
 def procKey (env : Env) (f : Facts) (m : Mode) :
     Fields → String → Option String → Prov → Flags → List String → DVal → St → Out
